@@ -244,7 +244,7 @@ class InspectContext(Unit):
             refs = {"yaql": "<% ctx().{v} %>", "yaql_fn": "<% ctx({v}) %>", "jinja": "{{{{ ctx().{v} }}}}"}
             for lang, tmpl in refs.items():
                 for case in ("assigned", "unassigned", "self"):
-                    for pos in ("vars", "task_input", "publish", "output"):
+                    for pos in ("vars", "task_input", "publish", "output", "retry_when", "retry_count", "task_delay", "with_items"):
                         var = "acc" if case == "self" else ("known" if case == "assigned" else "ghost")
                         ref = tmpl.format(v=var)
                         d = {"version": 1.0, "input": ["known"], "tasks": {"t1": {"action": "core.noop"}}}
@@ -254,6 +254,17 @@ class InspectContext(Unit):
                             if case == "self":
                                 continue
                             d["tasks"]["t1"]["input"] = {"p": ref}
+                        elif pos in ("retry_when", "retry_count", "task_delay", "with_items"):
+                            if case == "self":
+                                continue
+                            if pos == "retry_when":
+                                d["tasks"]["t1"]["retry"] = {"when": ref, "count": 1}
+                            elif pos == "retry_count":
+                                d["tasks"]["t1"]["retry"] = {"count": ref}
+                            elif pos == "task_delay":
+                                d["tasks"]["t1"]["delay"] = ref
+                            else:
+                                d["tasks"]["t1"]["with"] = {"items": ref}
                         elif pos == "publish":
                             d["tasks"]["t1"]["next"] = [{"publish": [{("acc" if case == "self" else "out"): ref}], "do": "t2"}]
                             d["tasks"]["t2"] = {"action": "core.noop"}
